@@ -14,7 +14,16 @@ reader / state / event sweep - a twin node that stored the current chain directl
 """
 import json
 import vlib
-from C03 import behaviours, h4_fixed, H4_KEY
+from C03 import behaviours, h4_fixed, selftest, H4_KEY
+
+
+def corrupt_idx(b):
+    """Claim one more block than the chain has."""
+    st = b["steps"][-1]
+    if st["res"] != "ok":
+        return False
+    st["idx"]["height"] += 1
+    return True
 
 
 def run(ctx):
@@ -40,9 +49,10 @@ def run(ctx):
         vlib.require_actions_covered(r)
         ctx.tlc_check("chain", "Revert.tla", "Revert_casm_thorough.cfg", timeout=3000)
 
-    bs = behaviours(ctx, "StateHistory_sim.cfg", 8 if thorough else 2, 17 * (150 if thorough else 50), fix, 0)
+    bs = behaviours(ctx, "StateHistory_sim.cfg", 6 if thorough else 2, 17 * (150 if thorough else 50), fix, 0)
     # small alphabet around zero writes: most behaviours revert a block with a no-op zero write
     bs += behaviours(ctx, "StateHistory_h4sim.cfg", 2 if thorough else 1, 11 * (60 if thorough else 12), fix, 50)
+    selftest(ctx, binary, "TestRevertReplay", bs, corrupt_idx)
     res = ctx.run_engine(binary, "TestRevertReplay", {"behaviours": bs}, timeout=3000)
     ctx.absorb(res, "statehist", "TestRevertReplay")
     ctx.coverage["behaviours_generated"] = len(bs)
